@@ -55,7 +55,7 @@ uint64_t fam_iterate(size_t m, const uint8_t *vec, int thorough, fam_cb cb, void
             for (q = p + 1; q < m; ++q) {
                 if (!thorough) {
                     size_t d = q - p;
-                    if (!(d == 1 || d == 3 || d == 4 || d == 8 || d == 16 || q == m - 1 - p))
+                    if (!(d == 1 || d == 3 || d == 4 || d == 7 || d == 8 || d == 15 || d == 16 || q == m - 1 - p))   /* 7, 15: first and last byte of an 8/16-byte unit (rotations wrap there) */
                         continue;
                 }
                 memcpy(buf, bg[b], m);
